@@ -185,6 +185,23 @@ func wApplyDerive(spec *quic.QUICSpec, d *WDerive) error {
 	if len(d.Suppress) > 0 {
 		spec.SuppressTransportParameters = append([]uint64{}, d.Suppress...)
 	}
+	if d.DupSuppressed != 0 {
+		// the same private-use parameter at the front, in the middle and at the end of the list, and suppressed: none of the
+		// copies may reach the wire
+		if q := wQTPExt(spec); q != nil {
+			mk := func(v byte) tls.TransportParameter {
+				return &tls.FakeQUICTransportParameter{Id: d.DupSuppressed, Val: []byte{v, 2, 3}}
+			}
+			l := q.TransportParameters
+			mid := len(l) / 2
+			nl := append(tls.TransportParameters{mk(1)}, l[:mid]...)
+			nl = append(nl, mk(2))
+			nl = append(nl, l[mid:]...)
+			nl = append(nl, mk(3))
+			q.TransportParameters = nl
+			spec.SuppressTransportParameters = append(spec.SuppressTransportParameters, d.DupSuppressed)
+		}
+	}
 	switch d.Shuffle {
 	case 1:
 		spec.RandomizeTransportParameters = true
